@@ -61,6 +61,9 @@ class Gen:
         """a binder name: often taken from a small pool so that inner binders shadow outer ones and
         definitions collide; otherwise unique. Procedure names are reused only in inner scopes."""
         r = self.rng
+        if self.derived:
+            # x, temp, atom-key are introduced by the (non-hygienic) or / cond / case templates
+            avoid = tuple(avoid) + ("x", "temp", "atom-key")
         if self.reuse and env is not None and p in ("x", "p", "b") and r.random() < 0.3:
             # deliberately shadow / redefine a visible variable of the same type
             cands = [n for n in env.all("int") if n not in avoid]
@@ -809,3 +812,72 @@ class MacroGen:
             inner = self.instance(pat, self.rng.random() < 0.35)
             uses.append("(%s %s)" % (kw, inner[1:-1]) if inner.startswith("(") else "(%s %s)" % (kw, inner))
         return definition, uses
+
+
+# ------------------------------------------------------------------------------------------
+# C05: every pair of derived forms nested in every sub-form position, with ticking sub-forms
+# ------------------------------------------------------------------------------------------
+def derived_templates():
+    """(name, template with numbered holes {0} {1} ..), holes are expression positions"""
+    return [
+        ("begin", "(begin {0} {1})"),
+        ("let", "(let ((u {0}) (v {1})) {2} (+ u v))"),
+        ("let*", "(let* ((u {0}) (v (+ u {1}))) {2} (+ u v))"),
+        ("cond", "(cond ((< {0} 0) {1} 1) ((= {2} 3) {3} 2) (else {4} 3))"),
+        ("cond=>", "(cond ({0} => (lambda (r) (+ r {1}))) (else {2} 0))"),
+        ("cond-test-only", "(cond ((if (< {0} 5) #f 7)) (else {1} 9))"),
+        ("case", "(case (+ 0 {0}) ((1 2) {1} 10) ((3) {2} 30) (else {3} 40))"),
+        ("case=>", "(case {0} ((1 3) => (lambda (r) (+ r {1}))) (else => (lambda (r) (- r {2}))))"),
+        ("and", "(if (and (< {0} 9) (< {1} 9) {2}) 1 0)"),
+        ("or", "(if (or (< 9 {0}) (< 9 {1}) #f) 1 0)"),
+        ("when", "(if (when (< {0} 9) {1} {2}) 1 0)"),
+        ("unless", "(if (unless (< 9 {0}) {1} {2}) 1 0)"),
+    ]
+
+
+def nested_pairs(rng, quick):
+    """outer form with one hole filled by an inner form, the other holes and all holes of the inner
+    form filled by ticking literals"""
+    forms = derived_templates()
+    out = []
+    tid = [0]
+
+    def tick(v):
+        tid[0] += 1
+        return "(tick %d %d)" % (tid[0], v)
+
+    for on, ot in forms:
+        nh = ot.count("{")
+        for pos in range(nh):
+            for inn, it in forms:
+                tid[0] = 0
+                inner = it.format(*[tick(rng.choice([1, 2, 3])) for _ in range(it.count("{"))])
+                holes = [tick(rng.choice([1, 2, 3])) for _ in range(nh)]
+                holes[pos] = inner
+                out.append(("%s/%d/%s" % (on, pos, inn), ot.format(*holes)))
+    if quick:
+        out = rng.sample(out, 250)
+    return out
+
+
+def scope_probes(rng):
+    """closures created in binding / clause positions of the derived forms, called after later bindings
+    exist: which binding they captured shows the scope each form gives its sub-forms"""
+    a, b, c = rng.randint(1, 9), rng.randint(10, 19), rng.randint(20, 29)
+    d = {"a": a, "b": b, "c": c}
+    T = [
+        ("let*-init-sees-outer", ["(define v {a})", "(let* ((f (lambda () v)) (v {b})) (list (f) v))"]),
+        ("let*-left-to-right", ["(let* ((v {a}) (f (lambda () v)) (v {b}) (g (lambda () v))) (list (f) (g) v))"]),
+        ("let*-three", ["(define w {c})", "(let* ((f (lambda () w)) (g (lambda () (f))) (w {a})) (list (f) (g) w))"]),
+        ("let-init-outside", ["(define v {a})", "(let ((f (lambda () v)) (v {b})) (list (f) v))"]),
+        ("let-nested", ["(let ((v {a})) (let ((f (lambda () v)) (v {b})) (let ((v {c})) (list (f) v))))"]),
+        ("let*-self", ["(define (f) {a})", "(let* ((f (lambda () (if #f (f) {b}))) (g f)) (list (f) (g)))"]),
+        ("let*-set", ["(define v {a})", "(let* ((f (lambda () (set! v (+ v 1)) v)) (v {b})) (list (f) v (f)))", "v"]),
+        ("cond=>-receives-test", ["(define n 0)", "(cond ((begin (set! n (+ n 1)) {a}) => (lambda (r) (list r n))) (else 'no))"]),
+        ("case-key-once", ["(define n 0)", "(case (begin (set! n (+ n 1)) {a}) (({b}) 'b) (({c}) 'c) (else (list 'else n)))"]),
+        ("or-once", ["(define n 0)", "(list (or (begin (set! n (+ n 1)) #f) (begin (set! n (+ n 10)) {a}) (begin (set! n (+ n 100)) {b})) n)"]),
+        ("and-once", ["(define n 0)", "(list (and (begin (set! n (+ n 1)) {a}) (begin (set! n (+ n 10)) #f) (begin (set! n (+ n 100)) {b})) n)"]),
+        ("begin-order", ["(define n 0)", "(begin (set! n (+ (* n 10) 1)) (set! n (+ (* n 10) 2)) (set! n (+ (* n 10) 3)) n)"]),
+        ("when-unless", ["(define n 0)", "(list (when (< {a} {b}) (set! n (+ n 1)) n) (unless (< {a} {b}) (set! n (+ n 10)) n) n)"]),
+    ]
+    return [(name, [f.format(**d) for f in forms]) for name, forms in T]
